@@ -8,6 +8,8 @@ NOT_YET = {}
 _TB = ("Trusted: Lean kernel + propext/Classical.choice/Quot.sound; hand-written models (checked against the code by the "
        "correspondence engine on every run, not assumed); generators and canonicalisers. ")
 ENGINES = [
+    {"name": "http", "path": "go/cmd/corr/httpeng.go", "serves_properties": ["C18"],
+     "kind_free_text": "differential: scripted handlers behind the real net/http middleware vs the Lean interceptor model"},
     {"name": "decode", "path": "go/cmd/corr/decode.go", "serves_properties": ["C03"],
      "kind_free_text": "differential: query string / urlencoded body / cookies / headers through the real transaction vs Lean parsers"},
     {"name": "audit", "path": "go/cmd/corr/audit.go", "serves_properties": ["C19"],
@@ -77,6 +79,14 @@ CLAIMED = {
              "`decode` through ProcessURI, the urlencoded body processor, the Cookie header and AddRequestHeader.",
         note=_TB + "Partial: multipart/JSON/XML parsing (mime/multipart, encoding/xml, gjson) is outside the model; "
              "url.ParseRequestURI is a parameter.", ref="6/C03", engine="decode"),
+    "C18": dict(
+        text="Lean 4 theorems over a model of the middleware's response interceptor, for every configuration, every decision "
+             "of the phase-3/phase-4 rules and every handler script: if the transaction ends interrupted in a response phase, "
+             "no byte of the handler's body reached the client's writer (C18_response_block, by an invariant over all scripts); "
+             "a deny in a request phase yields its status without the handler; the handler reads exactly the client's body; "
+             "unbuffered responses pass through byte-exact. Tied to /repo by `http` (real WrapHandler behind httptest).",
+        note=_TB + "Partial: net/http itself (Content-Length enforcement, HTTP/2, hijacking) is outside the model.",
+        ref="6/C18", engine="http"),
     "C09": dict(
         text="Lean 4 theorems: the state after a link is the left fold of 'update MATCHED_*, then run every non-disruptive "
              "action once' over exactly the link's matches, in order (so once per match, macros expanded at that moment); "
